@@ -56,7 +56,7 @@ SNAP_MAP = [
     (r"\|MarginfiError\|is_risk_engine_rejection\|", ["C09"]),
     (r"drift_mocks\|.*\|(get_precision_increase|adjust_i128|adjust_i64|adjust_u64|get_scaled_balance_decrement|get_scaled_balance_increment|get_scaled_balance)\|", ["C20"]),
     (r"kamino_mocks\|.*\|(u68f60_to_i80f48|accumulated_protocol_fees_sf|accumulated_referrer_fees_sf|borrowed_amount_sf|pending_referrer_fees_sf|collateral_to_liquidity|liquidity_to_collateral|scaled_supplies)\|", ["C20"]),
-    (r"solend_mocks\|.*\|(collateral_to_liquidity|liquidity_to_collateral|scaled_supplies|calculate_total_liquidity)\|", ["C20"]),
+    (r"solend_mocks\|.*\|(collateral_to_liquidity|liquidity_to_collateral|scaled_supplies)\|", ["C20"]),   # calculate_total_liquidity: decided semantically by C20.R5 (signed sum), not pinned
     (r"marginfi_type_crate\|.*\|(i80_from_i128_checked|scale_supplies|liq_to_col_ratio|col_to_liq_ratio)\|", ["C20"]),
     (r"marginfi_type_crate\|\|(milli_to_u32|centi_to_u32|basis_to_u32|u32_to_milli|u32_to_centi|u32_to_basis|make_points)\|", ["C18", "C13"]),
     (r"\|HealthCache\|set_(engine_ok|healthy|oracle_ok)\|", ["C04"]),
